@@ -1,7 +1,7 @@
 from __future__ import annotations
 
 import sys
-from asyncio import create_task
+from asyncio import CancelledError, create_task, current_task
 from contextvars import ContextVar
 from functools import partial, update_wrapper
 from inspect import signature
@@ -86,7 +86,19 @@ class _middleware_wrapper(Generic[FnP, FnR]):  # noqa: N801
 
         # run function inside of a separate context created by `asyncio.create_task()`
         # inside of this context IsInsideMiddleware variable will be set to True
-        result = await create_task(self.call_set_context(*args, **kwargs))
+        task = create_task(self.call_set_context(*args, **kwargs))
+        try:
+            result = await task
+        except CancelledError:
+            if not task.done() or task.cancelled() or task.exception() is not None:
+                raise
+            # the function had already completed when the cancellation arrived (same event loop
+            # iteration): its result (e.g. a consumed message) must not get lost on the way,
+            # so it is handed over and the cancellation is raised at the caller's next await
+            current = current_task()
+            if current is not None:
+                current.cancel()
+            result = task.result()
         # whatever the function returns can be seen as `result` kwarg in `after` signal
         signal_kwargs.update({"result": result})
 
